@@ -31,18 +31,39 @@ type taskSpec struct {
 
 // scenario = (live ((crit host)…) victim kind instant)
 type scenario struct {
-	live    string // CONFIGURED | RUNNING
-	tasks   []taskSpec
-	victim  int
-	kind    string // FAILED LOST KILLED TERROR FINISHED EXEC EXEC0 AGENT AGENT0 INTERNAL
+	live   string // CONFIGURED | RUNNING
+	tasks  []taskSpec
+	victim int
+	// FAILED LOST KILLED TERROR FINISHED EXEC EXEC0 AGENT AGENT0 INTERNAL — delivered while the core is connected;
+	// RFAILED RLOST RKILLED RTERROR RFINISHED RAGENT — the task(s) die while the core is cut off from the master
+	// (instant drop / dropabrupt): the only thing the core ever hears is the master's answer to the implicit
+	// RECONCILE of the re-subscription: the terminal state with REASON_RECONCILIATION (RAGENT: TASK_LOST for every
+	// task of the victim's agent)
+	kind string
 	// idle | race, racelate (a transition of the environment is in flight, parked at ANOTHER task's reply, which is
 	// released right after the injection / 900 ms later) | raceself (parked at the victim's own reply, which never
 	// comes: the core's 90 s response timeout) | burst (all replies of the transition and the failure arrive back to back)
+	// | drop, dropabrupt (R… kinds only: environment idle, the master ends the subscription cleanly / resets the connection)
 	instant string
 }
 
 var kinds = []string{"FAILED", "LOST", "KILLED", "TERROR", "FINISHED", "EXEC", "EXEC0", "AGENT", "AGENT0", "INTERNAL"}
-var instants = []string{"idle", "race", "racelate", "burst", "raceself"}
+
+// terminal states learnt ONLY through the reconciliation answer after a re-subscription
+var reconKinds = []string{"RFAILED", "RLOST", "RKILLED", "RTERROR", "RFINISHED", "RAGENT"}
+var dropInstants = []string{"drop", "dropabrupt"}
+var instants = []string{"idle", "race", "racelate", "burst", "raceself", "drop", "dropabrupt"}
+
+func isReconKind(k string) bool {
+	for _, r := range reconKinds {
+		if r == k {
+			return true
+		}
+	}
+	return false
+}
+
+func isDropInstant(i string) bool { return i == "drop" || i == "dropabrupt" }
 
 func parseScenario(in string) (*scenario, error) {
 	n, err := sx.Parse(in)
@@ -74,11 +95,15 @@ func parseScenario(in string) (*scenario, error) {
 	for _, k := range kinds {
 		ok = ok || k == s.kind
 	}
+	ok = ok || isReconKind(s.kind)
 	if !ok {
 		return nil, fmt.Errorf("scenario: bad kind %q", s.kind)
 	}
+	if isReconKind(s.kind) != isDropInstant(s.instant) {
+		return nil, fmt.Errorf("scenario: kind %q does not go with instant %q", s.kind, s.instant)
+	}
 	switch s.instant {
-	case "idle", "burst", "raceself":
+	case "idle", "burst", "raceself", "drop", "dropabrupt":
 	case "race", "racelate":
 		if len(s.tasks) < 2 {
 			return nil, fmt.Errorf("scenario: race needs a second task")
@@ -226,6 +251,8 @@ func getEnv(w *sim.World, id string) (*envView, error) {
 var mesosOf = map[string]mesos.TaskState{
 	"FAILED": mesos.TASK_FAILED, "LOST": mesos.TASK_LOST, "KILLED": mesos.TASK_KILLED, "TERROR": mesos.TASK_ERROR,
 	"FINISHED": mesos.TASK_FINISHED,
+	"RFAILED":  mesos.TASK_FAILED, "RLOST": mesos.TASK_LOST, "RKILLED": mesos.TASK_KILLED, "RTERROR": mesos.TASK_ERROR,
+	"RFINISHED": mesos.TASK_FINISHED, "RAGENT": mesos.TASK_LOST,
 }
 
 // timing statistics of one vh process (reported in the evidence, never a verdict)
@@ -236,6 +263,79 @@ var stat struct {
 	maxCase        string
 	droppedSeen    int
 	inconclusiveNo int
+}
+
+// dieWhileCutOff: the given tasks die while the core is cut off from the master. What the master will answer about
+// them is fixed, the subscription ends (cleanly, or with a connection reset); the master's one-shot status update has
+// nobody to go to and is never repeated (nothing is put on the list of unacknowledged updates: those WOULD be sent
+// again, with their original reason) — and when the core has re-subscribed, the master's answer to its implicit
+// RECONCILE reports them in the terminal state `st` with REASON_RECONCILIATION, SOURCE_MASTER, no UUID. Returns when
+// every answer is on the new stream. Every wait has the harness ceiling; a mesos-go client that lost the disconnect
+// (notes/C18.md) is recognised from the core's log: both are infrastructure trouble, never a verdict.
+func dieWhileCutOff(w *sim.World, dead []sim.TaskRecord, st mesos.TaskState, abrupt bool) error {
+	lastSeq := func() int {
+		tr := w.Trace()
+		if len(tr) == 0 {
+			return 0
+		}
+		return tr[len(tr)-1].Seq
+	}
+	// a subscription that ends while a call of the core is in flight can leave its mesos-go client deaf for ever:
+	// drop only after the master has not seen a call for 150 ms
+	if err := sim.Poll("no call in flight before the drop", ceiling, func() (bool, error) {
+		tr := w.Trace()
+		for j := len(tr) - 1; j >= 0; j-- {
+			if tr[j].Dir == "call" {
+				return time.Since(tr[j].When) > 150*time.Millisecond, nil
+			}
+		}
+		return true, nil
+	}); err != nil {
+		return err
+	}
+	if !w.Master.Subscribed() {
+		return &sim.InfraError{What: "the core is not subscribed before the drop"}
+	}
+	// What the master will say about the dying tasks when it is next asked is fixed first: it has no effect before a
+	// RECONCILE call arrives, and the core makes that call only on SUBSCRIBED — i.e. after the drop. (Fixing it after
+	// the drop would race with the re-subscription; for the core the two orders are indistinguishable.)
+	for _, t := range dead {
+		w.Master.SetReconcileAnswer(t.TaskID, &st)
+	}
+	n := lastSeq()
+	logPath := w.CoreLog()
+	w.DropStream(abrupt)
+	want := map[string]bool{}
+	for _, t := range dead {
+		want[t.TaskID] = true
+	}
+	return sim.Poll("the core re-subscribes and the master answers its reconciliation", ceiling, func() (bool, error) {
+		tr := w.Trace()
+		subd := false
+		got := map[string]bool{}
+		for _, r := range tr {
+			if r.Seq <= n {
+				continue
+			}
+			if r.Dir == "event" && r.Type == "SUBSCRIBED" {
+				subd = true
+			}
+			if subd && r.Dir == "event" && r.Type == "UPDATE" && r.Delivered && r.Reason == "REASON_RECONCILIATION" && r.State == st.String() &&
+				len(r.TaskIDs) == 1 && want[r.TaskIDs[0]] {
+				got[r.TaskIDs[0]] = true
+			}
+			if r.Dir == "event" && r.Type == "UPDATE" && len(r.TaskIDs) == 1 && want[r.TaskIDs[0]] && r.Reason != "REASON_RECONCILIATION" {
+				return false, &sim.InfraError{What: "a directly delivered update about a task that was to die unheard: " + r.String()}
+			}
+		}
+		if len(got) == len(want) {
+			return true, nil
+		}
+		if b, e := os.ReadFile(logPath); e == nil && strings.Contains(string(b), "already subscribed, cannot re-issue a SUBSCRIBE call") {
+			return false, &sim.InfraError{What: "the core's mesos-go client lost the disconnect (\"already subscribed, cannot re-issue a SUBSCRIBE call\"): it never re-subscribes"}
+		}
+		return false, nil
+	})
 }
 
 func runScenario(s *scenario, verbose bool) (*observation, error) {
@@ -306,7 +406,7 @@ func runScenario(s *scenario, verbose bool) (*observation, error) {
 		err error
 	}
 	var transCh chan tres
-	racing := s.instant != "idle"
+	racing := s.instant != "idle" && !isDropInstant(s.instant)
 	if racing {
 		holder := -1
 		if s.instant == "raceself" {
@@ -377,7 +477,21 @@ func runScenario(s *scenario, verbose bool) (*observation, error) {
 	}
 	t0 := time.Now()
 	vic := recs[s.victim]
+	switch {
+	case isReconKind(s.kind):
+		var dead []sim.TaskRecord
+		for _, t := range recs {
+			if t.TaskID == vic.TaskID || (s.kind == "RAGENT" && t.AgentID == vic.AgentID) {
+				dead = append(dead, t)
+			}
+		}
+		if err = dieWhileCutOff(w, dead, mesosOf[s.kind], s.instant == "dropabrupt"); err != nil {
+			return nil, err
+		}
+		t0 = time.Now() // the core has been told (the answers are on the new stream) just now
+	}
 	switch s.kind {
+	case "RFAILED", "RLOST", "RKILLED", "RTERROR", "RFINISHED", "RAGENT":
 	case "EXEC", "EXEC0":
 		w.Master.InjectExecutorFailure(vic.AgentID, vic.ExecutorID, 9, s.kind == "EXEC")
 	case "AGENT", "AGENT0":
@@ -398,7 +512,7 @@ func runScenario(s *scenario, verbose bool) (*observation, error) {
 				o.victims = append(o.victims, i)
 			}
 		}
-	case "AGENT", "AGENT0":
+	case "AGENT", "AGENT0", "RAGENT":
 		for i, t := range recs {
 			if t.AgentID == vic.AgentID {
 				o.victims = append(o.victims, i)
